@@ -198,4 +198,92 @@ theorem postOrderF_succ {σ : Type} (f : List String → σ → MNode V → Outc
     postOrderF f ord (fuel + 1) path s n =
       (foldlE (childStep f ord fuel path) (s, n.Children) (ord path)).bind fun st => f path st.1 { n with Children := st.2 } := rfl
 
+/-! ## `sort` -/
+
+theorem sort_mk (cmp : MNode V → MNode V → Int) (seg : String) (v : V) (cs : List (String × MNode V)) (so : List String) :
+    sort cmp (⟨seg, v, cs, so⟩ : MNode V) =
+      ⟨seg, v, sortChildren cmp cs, ((sortChildren cmp cs).mergeSort (fun a b => decide (cmp a.2 b.2 ≠ 1))).map Prod.fst⟩ := by
+  rw [sort]
+
+theorem sortChildren_nil (cmp : MNode V → MNode V → Int) : sortChildren cmp ([] : List (String × MNode V)) = [] := by
+  rw [sortChildren]
+
+theorem sortChildren_cons (cmp : MNode V → MNode V → Int) (k : String) (c : MNode V) (rest : List (String × MNode V)) :
+    sortChildren cmp ((k, c) :: rest) = (k, sort cmp c) :: sortChildren cmp rest := by
+  rw [sortChildren]
+
+theorem sortChildren_eq_map (cmp : MNode V → MNode V → Int) (cs : List (String × MNode V)) :
+    sortChildren cmp cs = cs.map (fun e => (e.1, sort cmp e.2)) := by
+  induction cs with
+  | nil => rw [sortChildren_nil]; rfl
+  | cons e rest ih => obtain ⟨k, c⟩ := e; rw [sortChildren_cons, ih]; rfl
+
+theorem find?_sortChildren (cmp : MNode V → MNode V → Int) (cs : List (String × MNode V)) (s : String) :
+    AMap.find? (sortChildren cmp cs) s = (AMap.find? cs s).map (sort cmp) := by
+  induction cs with
+  | nil => rw [sortChildren_nil]; rfl
+  | cons e rest ih =>
+    obtain ⟨k, c⟩ := e
+    rw [sortChildren_cons]
+    by_cases h : k = s <;> simp [AMap.find?, h, ih]
+
+theorem keys_sortChildren (cmp : MNode V → MNode V → Int) (cs : List (String × MNode V)) :
+    AMap.keys (sortChildren cmp cs) = AMap.keys cs := by
+  rw [sortChildren_eq_map]; simp [AMap.keys, List.map_map, Function.comp_def]
+
+theorem sort_Segment (cmp : MNode V → MNode V → Int) (n : MNode V) : (sort cmp n).Segment = n.Segment := by
+  obtain ⟨seg, v, cs, so⟩ := n; rw [sort_mk]
+theorem sort_Value (cmp : MNode V → MNode V → Int) (n : MNode V) : (sort cmp n).Value = n.Value := by
+  obtain ⟨seg, v, cs, so⟩ := n; rw [sort_mk]
+theorem sort_Children (cmp : MNode V → MNode V → Int) (n : MNode V) : (sort cmp n).Children = sortChildren cmp n.Children := by
+  obtain ⟨seg, v, cs, so⟩ := n; rw [sort_mk]
+theorem sort_SortedKeys (cmp : MNode V → MNode V → Int) (n : MNode V) :
+    (sort cmp n).SortedKeys = ((sortChildren cmp n.Children).mergeSort (fun a b => decide (cmp a.2 b.2 ≠ 1))).map Prod.fst := by
+  obtain ⟨seg, v, cs, so⟩ := n; rw [sort_mk]
+
+/-- sorting commutes with the lookup of a node -/
+theorem nodeAt?_sort (cmp : MNode V → MNode V → Int) (n : MNode V) (q : List String) :
+    nodeAt? (sort cmp n) q = (nodeAt? n q).map (sort cmp) := by
+  induction q generalizing n with
+  | nil => rfl
+  | cons s rest ih =>
+    rw [nodeAt?_cons, nodeAt?_cons, sort_Children, find?_sortChildren]
+    cases AMap.find? n.Children s with
+    | none => rfl
+    | some c => simpa using ih c
+
+theorem find?_of_mem_nodup' {κ ν : Type} [DecidableEq κ] {m : AMap κ ν} {k : κ} {v : ν} (hn : (AMap.keys m).Nodup) (h : (k, v) ∈ m) :
+    AMap.find? m k = some v := by
+  induction m with
+  | nil => simp at h
+  | cons e rest ih =>
+    obtain ⟨a, b⟩ := e
+    have hn' : a ∉ AMap.keys rest ∧ (AMap.keys rest).Nodup := by simpa [AMap.keys] using hn
+    rcases List.mem_cons.1 h with h | h
+    · cases h; simp [AMap.find?]
+    · have : a ≠ k := by
+        intro e; subst e
+        exact hn'.1 (List.mem_map.2 ⟨(a, v), h, rfl⟩)
+      simp [AMap.find?, this, ih hn'.2 h]
+
+/-- **the keys in sorted order**: when the comparator looks at segment and value only (it gives the same answer on sorted
+nodes), the sorted keys of a node are its children's keys sorted by the comparator on the children -/
+theorem sort_SortedKeys_eq (cmp : MNode V → MNode V → Int)
+    (hcmp : ∀ a b : MNode V, cmp (sort cmp a) (sort cmp b) = cmp a b) (n : MNode V) (hn : (AMap.keys n.Children).Nodup) :
+    (sort cmp n).SortedKeys =
+      (AMap.keys n.Children).mergeSort (fun a b =>
+        decide (cmp ((AMap.find? n.Children a).getD n) ((AMap.find? n.Children b).getD n) ≠ 1)) := by
+  rw [sort_SortedKeys]
+  have hk : AMap.keys n.Children = (sortChildren cmp n.Children).map Prod.fst := by
+    rw [← keys_sortChildren cmp]; rfl
+  rw [hk]
+  apply List.map_mergeSort
+  intro a ha b hb
+  rw [sortChildren_eq_map] at ha hb
+  obtain ⟨a0, ha0, rfl⟩ := List.mem_map.1 ha
+  obtain ⟨b0, hb0, rfl⟩ := List.mem_map.1 hb
+  obtain ⟨ka, ca⟩ := a0
+  obtain ⟨kb, cb⟩ := b0
+  simp only [find?_of_mem_nodup' hn ha0, find?_of_mem_nodup' hn hb0, Option.getD_some, hcmp]
+
 end Knut.GoSem.MNode
